@@ -76,7 +76,9 @@ def check_C05(args):
             counts = {}
             s = common.seed()
             jobs = [("GenExpr", dict(Depth2=False, MaxUps=2 if quick else 3, Sample=1 if quick else 2), "leaf.ndjson"),
-                    ("GenExpr", dict(Depth2=True, MaxUps=1 if quick else 2, Sample=2 if quick else 9), "tree.ndjson"),
+                    # (two-level trees with two updates per leaf do not finish enumerating in 30 min: the
+                    # thorough tier takes every tree with one update per leaf instead of every second one)
+                    ("GenExpr", dict(Depth2=True, MaxUps=1, Sample=2 if quick else 1), "tree.ndjson"),
                     ("GenSeq", dict(MaxUntil=5 if quick else 6, MaxLen=3 if quick else 4,
                                     Exprs={"SUM", "AVG"} if quick else {"SUM", "AVG", "MIN", "COUNT"},
                                     Sample=5 if quick else 1), "seq.ndjson")]
